@@ -8,6 +8,7 @@ import (
 	"flag"
 	"fmt"
 	"os"
+	"path/filepath"
 	"runtime/debug"
 	"sort"
 	"strconv"
@@ -204,6 +205,16 @@ func main() {
 			if cr := runControls(*repo, *controls, *known, []string{id}); cr != nil {
 				extra["positive_controls"] = cr
 				extra["positive_controls_rule"] = "each kept seeded change of this property (/verif/seeded/*, a realistic breaking patch confirmed by a failing demonstration) is applied to a scratch copy of the current tree and the same static rules are run on the copy; 'fired' lists the obligations violated on the copy and not on the tree itself. Informational: it shows the rules are not vacuous; it never changes this check's verdict."
+			}
+			if nr := runNegControls(*repo, filepath.Join(filepath.Dir(*controls), "benign"), *known, id); nr != nil {
+				noisy := 0
+				for _, r := range nr {
+					if !r.Silent {
+						noisy++
+					}
+				}
+				extra["negative_controls"] = nr
+				extra["negative_controls_rule"] = fmt.Sprintf("each behaviour-preserving refactoring in /verif/benign (written by independent agents; compiles, full suite passes) is applied to a scratch copy and this property's rules are run on the copy; a rule that fires there is an alarm on code where the property holds. %d of %d silent. Informational; never changes this check's verdict.", len(nr)-noisy, len(nr))
 			}
 		}
 		nviol, lines, err := writeEvidence(*out, registry[id].Meta, *tier, seed, first, cfgNames, wall, extra)
